@@ -150,6 +150,10 @@ def _game(shape, kind, seed):
     prob /= prob.sum()
     if kind.startswith("01"):
         pred = (rng.random((A, B, X, Y)) < 0.45).astype(float)
+        if kind.endswith("int"):  # a 0/1 predicate typed in as integers / booleans
+            pred = pred.astype(np.int64)
+        elif kind.endswith("bool"):
+            pred = pred.astype(bool)
     else:
         pred = rng.random((A, B, X, Y))
     return prob, pred
@@ -504,6 +508,10 @@ def cases(tier, seed):
             for s in (seed, seed + 1) if thorough else (seed,):
                 add("cv.bruteforce_ge", dict(shape=list(shape), kind=kind, seed=s), "classical_value/shape", nt)
                 add("cv.bruteforce_le", dict(shape=list(shape), kind=kind, seed=s), "classical_value/shape", nt)
+    for shape in ([2, 2, 2, 2], [2, 2, 3, 2], [3, 2, 2, 2], [2, 3, 2, 3], [1, 2, 2, 2]):
+        for kind in ("01int", "01bool"):
+            add("cv.bruteforce_ge", dict(shape=list(shape), kind=kind, seed=seed), "classical_value/pred-dtype-%s" % kind[2:])
+            add("cv.bruteforce_le", dict(shape=list(shape), kind=kind, seed=seed), "classical_value/pred-dtype-%s" % kind[2:])
     for shape, kind in (([3, 3, 7, 7], "tail"), ([2, 3, 11, 7], "tail"), ([3, 2, 7, 11], "head-high"), ([2, 2, 11, 10], "random")):
         out.append(dict(clause="cv.pool_branch", params=dict(shape=shape, kind=kind, seed=seed), input_class="classical_value/pool-branch/%s" % kind, nontrivial=True, inline=True))
     for shape in ([2, 2, 3, 2], [3, 2, 2, 3], [2, 3, 2, 1], [2, 2, 2, 4], [1, 3, 2, 2]):
@@ -530,6 +538,9 @@ def cases(tier, seed):
         for r in range(reps):
             levels = [1, "1+ab", 2] if (sh[0] == 2 and sh[1] == 2 and sh[2] * sh[3] <= 4) else [1, "1+ab"]
             add("order", dict(shape=sh, kind="01" if (i + r) % 2 == 0 else "frac", seed=seed + 7 * i + r, levels=levels, qlb=(i % 3 == 0)), "ordering")
+    for kind in ("01int", "01bool"):
+        add("order", dict(shape=[2, 2, 2, 2], kind=kind, seed=seed + 3, levels=[1, "1+ab"], qlb=True), "ordering/pred-dtype-%s" % kind[2:])
+        add("order", dict(shape=[2, 3, 2, 2], kind=kind, seed=seed + 4, levels=[1], qlb=False), "ordering/pred-dtype-%s" % kind[2:])
     import random
 
     rnd = random.Random(seed)
